@@ -67,6 +67,8 @@ def exec_cases(binpath, workdir, progs, specs, cases, deadline_ms=5000):
 def classify(case, r):
     """compare one real outcome with the predictions. Returns one of
     ok | unclaimed | known:Dev_GreedyGroup | violation:<why>"""
+    if r.get("skipped"):
+        return "skipped"
     if r.get("hang") or r.get("crash"):
         why = "hang" if r.get("hang") else "crash " + r["crash"]
         return "violation:" + why
